@@ -3,7 +3,7 @@ From Coq Require Import List NArith ZArith Bool Lia ZifyBool.
 From Lib Require Import Str Lex ColumnsTpl.
 From Gen Require Import Columns.
 From Model Require Import Columns.
-From Proofs Require Import ColumnsStr ColumnsNum ColumnsDate ColumnsAff ColumnsExact ColumnsTypes ColumnsMain.
+From Proofs Require Import ColumnsStr ColumnsNum ColumnsDate ColumnsAff ColumnsExact ColumnsTypes ColumnsMain ColumnsDec ColumnsRound.
 Import ListNotations.
 Open Scope N_scope.
 
@@ -76,4 +76,83 @@ Proof.
   destruct Hdec as [->|Hv]; [apply run_none|].
   apply run_consistent; [assumption| |apply query_literal].
   intros dbv Hfrom. now apply (exact_all C T v dbv).
+Qed.
+
+(* ---------------------------------------------------------------- in-domain values round-trip *)
+Lemma in_domain_kind_ok T v : in_domain T v = true -> kind_ok T v = true.
+Proof.
+  intros H. destruct v; try (destruct T; reflexivity); destruct T; try reflexivity; cbn in H; try discriminate; cbn; exact H.
+Qed.
+
+Lemma stored_all C T v :
+  wf v = true -> coltype_ok T = true -> in_domain T v = true ->
+  codec_law C T v -> engine_roundtrip C T v = true -> stored_ok C T v.
+Proof.
+  intros Hwf HT Hdom Hlaw Hor.
+  assert (Hdec : v = PNone \/ v <> PNone) by (destruct v; auto; right; discriminate).
+  destruct Hdec as [->|Hv]; [apply stored_none|].
+  destruct T as [l|l| | | | | | | | | | | |size prec| |size prec q|vals| | | | | ].
+  - (* String *) destruct v; try congruence; cbn in Hdom; try discriminate. apply andb_true_iff in Hdom. destruct Hdom as [Hok _].
+    apply stored_string; [left; eauto|assumption].
+  - destruct v; try congruence; cbn in Hdom; try discriminate. apply andb_true_iff in Hdom. destruct Hdom as [Hok _].
+    apply stored_string; [right; left; eauto|assumption].
+  - destruct v; try congruence; cbn in Hdom; try discriminate. now apply stored_int.
+  - destruct v; try congruence; cbn in Hdom; try discriminate. now apply stored_int.
+  - destruct v; try congruence; cbn in Hdom; try discriminate. now apply stored_int.
+  - destruct v; try congruence; cbn in Hdom; try discriminate. now apply stored_int.
+  - destruct v; try congruence; cbn in Hdom; try discriminate. now apply stored_int.
+  - destruct v; try congruence; cbn in Hdom; try discriminate. apply stored_bool.
+  - (* Float *) now apply stored_real.
+  - (* DateTime *) destruct v; try congruence; cbn in Hdom; try discriminate. destruct tz; [discriminate|].
+    cbn in Hwf. apply andb_true_iff in Hwf. destruct Hwf. apply stored_datetime; auto.
+  - destruct v; try congruence; cbn in Hdom; try discriminate. now apply stored_date.
+  - destruct v; try congruence; cbn in Hdom; try discriminate. destruct tz; [discriminate|]. now apply stored_time.
+  - destruct v; try congruence; cbn in Hdom; try discriminate. destruct tz; [discriminate|].
+    cbn in Hwf. apply andb_true_iff in Hwf. destruct Hwf. apply stored_datetime; auto.
+  - (* Decimal *) now apply stored_real.
+  - now apply stored_real.
+  - (* DecimalString *) destruct v; try congruence; cbn in Hdom; try discriminate.
+    destruct q; [now apply stored_decstr_quant|].
+    cbn in HT. apply stored_decstr_plain; [lia|assumption].
+  - (* Enum *) destruct v; try congruence; cbn in Hdom; try discriminate. apply andb_true_iff in Hdom. destruct Hdom as [Hm Hok].
+    apply stored_string; [right; right; eauto|assumption].
+  - (* BLOB *) destruct v; try congruence; cbn in Hdom; try discriminate. now apply stored_blob.
+  - (* Pickle *) assert (Hl : b64_law C (pdumps C v) /\ ploads C (pdumps C v) = v) by (destruct v; try congruence; exact Hlaw).
+    destruct Hl. now apply stored_pickle.
+  - (* Uuid *) destruct v; try congruence; cbn in Hdom; try discriminate. destruct Hlaw. now apply stored_uuid.
+  - (* JSON *) assert (Hl : exists t, jdumps C v = Ok t /\ jloads C t = v /\ text_ok t = true) by (destruct v; try congruence; exact Hlaw).
+    destruct Hl as (t & H1 & H2 & H3). apply (stored_json C v t); try assumption.
+    destruct v; try congruence; exact Hdom.
+  - (* ForeignKey *) destruct v; try congruence; cbn in Hdom; try discriminate.
+    + apply (stored_fk C _ z); [now left|assumption].
+    + apply (stored_fk C _ id); [now right|assumption].
+Qed.
+
+Theorem roundtrip C T v w var :
+  wf v = true -> coltype_ok T = true -> in_domain T v = true ->
+  codec_law C T v -> engine_roundtrip C T v = true -> guard_engine C T v = true ->
+  let o := run C T v w var in
+  o_write o = Ok tt /\
+  (exists c d, o_cache o = Some (Ok c) /\ o_db o = Some (Ok d) /\
+               (same (expected T v) c /\ pytype c = pytype (expected T v)) /\
+               (same (expected T v) d /\ pytype d = pytype (expected T v))) /\
+  (forall p, o_cache_pre o = Some p ->
+             exists c', p = Ok c' /\ same (expected T v) c' /\ pytype c' = pytype (expected T v)) /\
+  o_found o = Some (Ok true).
+Proof.
+  intros Hwf HT Hdom Hlaw Hor Hg o.
+  pose proof (run_success C T v w var (stored_all C T v Hwf HT Hdom Hlaw Hor)) as (Hw & Hcd & Hpre).
+  split; [exact Hw|]. split; [exact Hcd|]. split; [exact Hpre|].
+  pose proof (accept_normalise_or_reject C T v w var Hwf (in_domain_kind_ok T v Hdom) Hg) as Hc.
+  unfold consistent in Hc. fold o in Hc. unfold o in *. rewrite Hw in Hc.
+  destruct Hc as (c & d & _ & _ & _ & _ & Hf). exact Hf.
+Qed.
+
+(* the equality query, on its own: whenever a write returns, select(col == v) yields the row *)
+Theorem query_finds_row C T v w var :
+  wf v = true -> kind_ok T v = true -> guard_engine C T v = true ->
+  o_write (run C T v w var) = Ok tt -> o_found (run C T v w var) = Some (Ok true).
+Proof.
+  intros Hwf Hk Hg Hw. pose proof (accept_normalise_or_reject C T v w var Hwf Hk Hg) as Hc.
+  unfold consistent in Hc. rewrite Hw in Hc. destruct Hc as (c & d & _ & _ & _ & _ & Hf). exact Hf.
 Qed.
